@@ -160,7 +160,11 @@ def run_case(case: dict) -> dict:
         vals = [0.5, 0.0, 1.75, 1.0]
         rng.shuffle(vals)
         par = rng.random() < 0.3
-        res = scan.steady_state(model, to_scan=pd.DataFrame({kout: vals}), parallel=par)
+        table = pd.DataFrame({kout: vals})
+        if rng.random() < 0.4:
+            table.index = [0, 1, 0, 1]  # row labels need not be unique; every row is still its own steady-state problem
+            counters["scan:repeated_row_labels"] = 1
+        res = scan.steady_state(model, to_scan=table, parallel=par)
         var = res.variables
         flx = res.fluxes
         counters["scan:rows"] = len(vals)
